@@ -20,11 +20,44 @@ class Unsupported(Exception):
     pass
 
 
+class TooBig(Exception):
+    """raised by the guarded interpreter before an astronomically large power/shift"""
+
+
+def _guard_pow(a, b):
+    from fractions import Fraction
+    if isinstance(b, (int, Fraction)) and not isinstance(b, bool) and abs(b) > 256:
+        raise TooBig
+    if isinstance(a, int) and isinstance(b, int) and a.bit_length() * max(abs(b), 1) > 200000:
+        raise TooBig
+    if isinstance(a, Fraction) and isinstance(b, (int, Fraction)):
+        if (a.numerator.bit_length() + a.denominator.bit_length()) * max(abs(b), 1) > 200000:
+            raise TooBig
+
+
+def _guard_shift(a, b):
+    if isinstance(b, int) and b > 4096:
+        raise TooBig
+
+
+def is_safe(e, env) -> bool:
+    """False if evaluating `e` in `env` would attempt an astronomically large power or shift."""
+    try:
+        pyeval(e, env, guard=True)
+    except TooBig:
+        return False
+    except RecursionError:
+        return False
+    except Exception:
+        return True
+    return True
+
+
 _CMP = {"==": op.eq, "!=": op.ne, "<": op.lt, "<=": op.le, ">": op.gt, ">=": op.ge}
 
 
-def pyeval(e, env):
-    ev = lambda c: pyeval(c, env)  # noqa: E731
+def pyeval(e, env, guard=False):
+    ev = lambda c: pyeval(c, env, guard)  # noqa: E731
     if isinstance(e, (bool, int, float, complex)):
         return e
     if isinstance(e, tuple):
@@ -59,9 +92,13 @@ def pyeval(e, env):
         return a % b
     if n == "Power":
         a = ev(e.base); b = ev(e.exponent)
+        if guard:
+            _guard_pow(a, b)
         return a ** b
     if n == "LeftShift":
         a = ev(e.shiftee); b = ev(e.shift)
+        if guard:
+            _guard_shift(a, b)
         return a << b
     if n == "RightShift":
         a = ev(e.shiftee); b = ev(e.shift)
@@ -129,6 +166,10 @@ def same_value(a, b) -> bool:
         return False
     if isinstance(a, (tuple, list)):
         return len(a) == len(b) and all(same_value(x, y) for x, y in zip(a, b))
+    from ..sexp import App
+    if isinstance(a, App):
+        return (a.f == b.f and same_value(a.args, b.args) and a.kw.keys() == b.kw.keys()
+                and all(same_value(a.kw[k], b.kw[k]) for k in a.kw))
     if isinstance(a, float):
         return a == b or (a != a and b != b)
     if isinstance(a, complex):
